@@ -171,11 +171,13 @@ def run_shard(job):
 
     def on_end(e):
         n = e.paths
-        if len(state['samples']) < 2 and state['trace'] is not None:
+        if state['trace'] is not None and (len(state['samples']) < 2 or len(e.inputs) > state['samples'][-1]['ninputs']) and n < 400:
             state['samples'].append({'harness': hname, 'params': params, 'choices': list(e.choices),
                                      'inputs': [(k, _enc(v)) for k, v in e.current_inputs()],
-                                     'notes': list(e.path_notes)})
-        if every and state['trace'] is not None and (n + offset) % every == 0 and not e.path_violated:
+                                     'notes': list(e.path_notes), 'ninputs': len(e.inputs)})
+            state['samples'].sort(key=lambda x: x['ninputs'])
+            del state['samples'][:-2]
+        if every and state['trace'] is not None and ((n + offset) % every == 0 or n == 1) and not e.path_violated:
             mm = e.margin_model()
             if mm is not None:
                 e._set_model(mm)
@@ -234,7 +236,7 @@ def run_shard(job):
         'solver_s': eng.solver_s, 'obligations': eng.obligations, 'discharged': eng.discharged,
         'violations': viols, 'inconclusive': eng.inconclusive, 'error': eng.error, 'counters': eng.counters,
         'monitors': eng.monitor_stats, 'samples': state['samples'], 'xreplays': state['xre'], 'xreplay_bad': state['xre_bad'][:3],
-        'functions': sorted(_funcs), 'wall': time.time() - t0, 'nvars': eng.nvars,
+        'functions': sorted(_funcs), 'wall': time.time() - t0, 'nvars': eng.nvars, 'ties': state.get('ties', 0),
     }
 
 
@@ -321,8 +323,9 @@ def report(pid, tier, seed, prop, results, broken, wall, njobs, args):
             m[0] += v[0]
             m[1] += v[1]
         functions.update(r['functions'])
-        if len(samples) < 4:
-            samples.extend(r['samples'][:1])
+        samples.extend(r['samples'][-1:])
+    samples.sort(key=lambda x: -x.get('ninputs', 0))
+    samples = samples[:4]
     inconclusive = [('%s %s' % (r['harness'], r['params']), r['inconclusive']) for r in results if r['inconclusive']]
     errors = [('%s %s' % (r['harness'], r['params']), r['error']) for r in results if r['error']]
     if broken:
@@ -413,6 +416,7 @@ def report(pid, tier, seed, prop, results, broken, wall, njobs, args):
             'stubs': meta.get('stubs', []),
             'outside_claim': meta.get('outside', []),
             'known_findings_reproduced': [k['what'] for k, _ in listed],
+            'cross_replay_paths_skipped_as_exact_ties': sum(r.get('ties', 0) for r in results),
             'status': {0: 'holds within bounds', 1: 'violation', 2: 'inconclusive', 3: 'harness error'}[status],
         },
         'assumptions': meta.get('assumptions', []),
